@@ -91,6 +91,10 @@ class LinearOperator(CalculusFunction):
 # ...
 
 # ...
+def _is_matrix(a):
+    """True for a genuine matrix; the (n,1) column that stands for a vector is not one."""
+    return isinstance(a, (Matrix, ImmutableDenseMatrix)) and a.shape[1] > 1
+
 class DotBasic(CalculusFunction):
 
     nargs = None
@@ -141,6 +145,13 @@ class Dot_2d(DotBasic):
         u = _args[0]
         v = _args[1]
 
+        if _is_matrix(u) and not _is_matrix(v):
+            return ImmutableDenseMatrix([[u[0,0]*v[0] + u[0,1]*v[1]],
+                                         [u[1,0]*v[0] + u[1,1]*v[1]]])
+
+        if _is_matrix(v) and not _is_matrix(u):
+            return ImmutableDenseMatrix([[u[0]*v[0,0] + u[1]*v[1,0]],
+                                         [u[0]*v[0,1] + u[1]*v[1,1]]])
 
         if isinstance(u, (Add, Mul)):
             ls = u.atoms(Tuple)
@@ -173,14 +184,15 @@ class Dot_3d(DotBasic):
         u = _args[0]
         v = _args[1]
 
-        if isinstance(u, (Matrix, ImmutableDenseMatrix)):
-            if isinstance(v, (Matrix, ImmutableDenseMatrix)):
-                return u[0]*v[0] + u[1]*v[1] + u[2]*v[2]
+        if _is_matrix(u) and not _is_matrix(v):
+            return ImmutableDenseMatrix([[u[0,0]*v[0] + u[0,1]*v[1] + u[0,2]*v[2]],
+                                         [u[1,0]*v[0] + u[1,1]*v[1] + u[1,2]*v[2]],
+                                         [u[2,0]*v[0] + u[2,1]*v[1] + u[2,2]*v[2]]])
 
-            else:
-                return Tuple(u[0,0]*v[0] + u[0,1]*v[1] + u[0,2]*v[2],
-                             u[1,0]*v[0] + u[1,1]*v[1] + u[1,2]*v[2],
-                             u[2,0]*v[0] + u[2,1]*v[1] + u[2,2]*v[2])
+        if _is_matrix(v) and not _is_matrix(u):
+            return ImmutableDenseMatrix([[u[0]*v[0,0] + u[1]*v[1,0] + u[2]*v[2,0]],
+                                         [u[0]*v[0,1] + u[1]*v[1,1] + u[2]*v[2,1]],
+                                         [u[0]*v[0,2] + u[1]*v[1,2] + u[2]*v[2,2]]])
 
 
         if isinstance(u, (Add, Mul)):
